@@ -9,6 +9,7 @@ import JanetModel.Spec.FixedEmit
 import JanetModel.Spec.VariadicEmit
 import JanetModel.Spec.Emit
 import JanetModel.Spec.NilGuard
+import JanetModel.Spec.Operand
 
 /-!
 C15 - compiler specialisations of core functions preserve behaviour (theorems only).
@@ -451,12 +452,17 @@ theorem skeleton_do_put_ok : skeletonOf "do_put" = Skeleton.do_put := by decide 
 theorem skeleton_do_yield_ok : skeletonOf "do_yield" = Skeleton.do_yield := by decide +kernel
 theorem skeleton_janet_quick_asm_ok : skeletonOf "janet_quick_asm" = Skeleton.janet_quick_asm := by decide +kernel
 theorem skeleton_janetc_check_nil_form_ok : skeletonOf "janetc_check_nil_form" = Skeleton.janetc_check_nil_form := by decide +kernel
+theorem skeleton_janetc_movenear_ok : skeletonOf "janetc_movenear" = Skeleton.janetc_movenear := by decide +kernel
+theorem skeleton_janetc_regnear_ok : skeletonOf "janetc_regnear" = Skeleton.janetc_regnear := by decide +kernel
+theorem skeleton_janetc_emit_sss_ok : skeletonOf "janetc_emit_sss" = Skeleton.janetc_emit_sss := by decide +kernel
+theorem skeleton_emit2s_ok : skeletonOf "emit2s" = Skeleton.emit2s := by decide +kernel
 theorem skeleton_janetc_call_selection_ok : skeletonOf "janetc_call.selection" = Skeleton.janetc_call_selection := by decide +kernel
 
 /-- every C body that has an expected skeleton is present in the regenerated table, and nothing else is -/
 theorem skeleton_names_ok : skeletons.map (·.1) =
     ["genericSS", "genericSSI", "opfunction", "can_be_imm", "can_slot_be_imm", "reduce_target", "opreduce", "compreduce", "janetc_funopt",
-     "do_apply", "do_debug", "do_error", "do_get", "do_put", "do_yield", "janet_quick_asm", "janetc_check_nil_form", "janetc_call.selection"] := by
+     "do_apply", "do_debug", "do_error", "do_get", "do_put", "do_yield", "janet_quick_asm", "janetc_check_nil_form", "janetc_movenear",
+     "janetc_regnear", "janetc_emit_sss", "emit2s", "janetc_call.selection"] := by
   decide +kernel
 
 /-! ### fixed-arity specialisations as EMITTERS: the emitted instructions, run on the caller's registers, against the generic bytecode -/
@@ -871,6 +877,21 @@ theorem nil_condition_value (hnil : ∀ x, P.eqv P.nil x = P.isNil x ∧ P.eqv x
     binop P .equals P.nil x = M.pure (ofBool P (P.isNil x)) ∧ binop P .equals x P.nil = M.pure (ofBool P (P.isNil x)) ∧
     binop P .notEquals P.nil x = M.pure (ofBool P (!P.isNil x)) ∧ binop P .notEquals x P.nil = M.pure (ofBool P (!P.isNil x)) := by
   refine ⟨?_, ?_, ?_, ?_⟩ <;> simp [binop, binopK, kindOf, (hnil x).1, (hnil x).2]
+
+/-! ### operand loads of emit.c -/
+
+/-- the opcodes `janetc_movenear` emits (read from its regenerated skeleton, in order: deref of a `var` reference, upvalue, far local) are
+    the ones the model `Spec.loadInstr` uses for the upvalue and far-local operands -/
+theorem movenear_ops_ok : ((skeletonOf "janetc_movenear").filterMap (·.op)) = [.getIndex, .loadUpvalue, .moveNear] ∧
+    loadInstr 7 (.upv 1 2) = some (mkABC .loadUpvalue 7 1 2) ∧ loadInstr 7 (.far 300) = some (mkAE .moveNear 7 300) := by
+  decide +kernel
+
+/-- non-vacuity of `Spec.operands_loaded`: `(+ far300 upvalue)`-style operands give two load instructions and the registers 240 / 241 -/
+example : regnear 240 (.far 300) = (240, [mkAE .moveNear 240 300]) ∧ regnear 241 (.upv 0 3) = (241, [mkABC .loadUpvalue 241 0 3]) ∧
+    regnear 240 (.near 5) = (5, []) ∧ (Opd.far 300).ok ∧ ¬ (Opd.far 300).reads 241 := by
+  refine ⟨rfl, rfl, rfl, ?_, ?_⟩
+  · show 300 < 65536; omega
+  · show ¬ (300 = 241); omega
 
 /-! ### condition guards of `if` / `while`: EVERY emission site (also the while loop recompiled as a closure), constant folding -/
 
